@@ -192,6 +192,7 @@ func (v *verifyCtx) enterLoop(x *Exec, st *State, fr *Frame, b *ssa.BasicBlock, 
 			fr.names[fmt.Sprintf("%s%d", phi.Comment, n)] = TV{nv, phi.Type()}
 		}
 		fr.names[fmt.Sprintf("phi%d", k+1)] = TV{nv, phi.Type()}
+		fr.names[fmt.Sprintf("l%dphi%d", n, k+1)] = TV{nv, phi.Type()}
 	}
 	st.Loops = append(st.Loops, &loopAct{hdr: b, mods: mods, mark: mark, n: n})
 	e = v.env(x, st, fr)
